@@ -631,10 +631,23 @@ pub fn render_ufo(spec: &Spec, version: u8, dl: usize, s: &mut Surf, dir: &Path)
         std::fs::create_dir_all(&ldir).unwrap();
         let mut contents = Dictionary::new();
         for (gi, g) in l.iter().enumerate() {
-            let fname = if s.r.chance(1, 2) {
-                format!("g{}_.glif", gi)
-            } else {
-                l.get_path(g.name()).unwrap().to_string_lossy().to_string()
+            let fname = match s.r.below(4) {
+                0 | 1 => l.get_path(g.name()).unwrap().to_string_lossy().to_string(),
+                2 => format!("g{}_.glif", gi),
+                // the default file name of ANOTHER glyph name (a later insert of that name must not reuse it)
+                _ => {
+                    let other = *s.r.pick(&["a", "B", "space", "con", "a_", "A_B.alt", "zeta", "\u{c4}*"]);
+                    let f = norad::user_name_to_file_name(other, "", ".glif", |_| true).to_string_lossy().to_string();
+                    let taken = l.iter().any(|x| {
+                        x.name().as_str() == other
+                            || l.get_path(x.name()).map(|p| p.to_string_lossy().to_lowercase()) == Some(f.to_lowercase())
+                    }) || contents.values().any(|v| v.as_string().map(|x| x.to_lowercase()) == Some(f.to_lowercase()));
+                    if taken {
+                        format!("g{}_.glif", gi)
+                    } else {
+                        f
+                    }
+                }
             };
             contents.insert(g.name().to_string(), sval(&fname));
             let gl = if version < 3 {
@@ -683,11 +696,29 @@ fn glif_formats(dir: &Path) -> String {
 
 /// load(x), save, load again
 fn observe_tree(src: &Path, intended: Option<&Spec>, scratch: &Path) -> String {
-    let l1 = match guarded(|| Font::load(src)) {
+    observe_tree_with(src, intended, scratch, "absent", "")
+}
+
+/// `target`: what the save destination holds beforehand (c01::prepare_target); `edits`: glyphs inserted through
+/// the public API between the first load and the save (`<layer index>.<hex name>.<seed>,...`)
+fn observe_tree_with(src: &Path, intended: Option<&Spec>, scratch: &Path, target: &str, edits: &str) -> String {
+    let mut l1 = match guarded(|| Font::load(src)) {
         Ok(Ok(f)) => f,
         Ok(Err(e)) => return format!("l1=err:{}", variant(&format!("{:?}", e))),
         Err(_) => return "l1=panic".to_string(),
     };
+    let mut intended = intended;
+    if !edits.is_empty() {
+        intended = None;
+        for op in edits.split(',') {
+            let p: Vec<&str> = op.split('.').collect();
+            let li: usize = p[0].parse().unwrap();
+            let name = String::from_utf8(unhex(p[1])).unwrap();
+            if let Some(layer) = l1.layers.iter_mut().nth(li) {
+                layer.insert_glyph(mk_glyph(&name, p[2]));
+            }
+        }
+    }
     let d1 = match intended {
         Some(sp) => match guarded(|| build(sp)) {
             Ok(b) => describe_ref(&l1, sp, &b),
@@ -700,7 +731,7 @@ fn observe_tree(src: &Path, intended: Option<&Spec>, scratch: &Path) -> String {
     out.push(format!("pre={}", paths(&l1)));
     out.push("|".to_string());
     let dst = scratch.join("c04-out.ufo");
-    rm_rf(&dst);
+    prepare_target(&dst, target);
     let save = match guarded(|| l1.save(&dst)) {
         Ok(Ok(())) => "ok".to_string(),
         Ok(Err(e)) => format!("err:{}", variant(&format!("{:?}", e))),
@@ -770,7 +801,7 @@ fn observe_glif(xml: &[u8], intended: Option<&Glyph>) -> String {
     };
     let a = match intended {
         Some(i) => {
-            if *i == g1 {
+            if glyph_eq(i, &g1) {
                 "1"
             } else {
                 "0"
@@ -787,7 +818,7 @@ fn observe_glif(xml: &[u8], intended: Option<&Glyph>) -> String {
     let fmt = t.split("format=\"").nth(1).and_then(|x| x.split('"').next()).unwrap_or("?").to_string();
     let minor = if t.contains("formatMinor=") { "+minor" } else { "" };
     match guarded(|| Glyph::parse_raw(&enc)) {
-        Ok(Ok(g2)) => format!("p1=ok a={} enc=ok fmt={}{} p2=ok fix={}", a, fmt, minor, if g1 == g2 { 1 } else { 0 }),
+        Ok(Ok(g2)) => format!("p1=ok a={} enc=ok fmt={}{} p2=ok fix={}", a, fmt, minor, if glyph_eq(&g1, &g2) { 1 } else { 0 }),
         Ok(Err(_)) => format!("p1=ok a={} enc=ok fmt={}{} p2=err", a, fmt, minor),
         Err(_) => format!("p1=ok a={} enc=ok fmt={}{} p2=panic", a, fmt, minor),
     }
@@ -1201,7 +1232,7 @@ fn observe_mutglif(rel: &str, seed: u64) -> String {
     let sem = if preserving {
         match (guarded(|| Glyph::parse_raw(&orig)), guarded(|| Glyph::parse_raw(m.as_bytes()))) {
             (Ok(Ok(a)), Ok(Ok(b))) => {
-                if a == b {
+                if glyph_eq(&a, &b) {
                     "1"
                 } else {
                     "0"
@@ -1255,7 +1286,8 @@ fn observe_mutufo(rel: &str, seed: u64, scratch: &Path) -> String {
     let sem = if preserving {
         match (orig, guarded(|| Font::load(&src))) {
             (Ok(Ok(a)), Ok(Ok(b))) => {
-                if a == b {
+                // content hashes of every part (glyph hashes see the order of the code points, `==` does not)
+                if a == b && font_tokens(&describe_fresh(&a)) == font_tokens(&describe_fresh(&b)) {
                     "1"
                 } else {
                     "0"
@@ -1278,7 +1310,7 @@ fn field<'a>(toks: &[&'a str], k: &str) -> &'a str {
 
 pub fn observe(toks: &[&str], scratch: &Path) -> String {
     match toks[0] {
-        "ufo" => {
+        "ufo" | "edit" => {
             let v: u8 = field(toks, "v").parse().unwrap();
             let seed: u64 = field(toks, "s").parse().unwrap();
             let dl: usize = field(toks, "dl").parse().unwrap();
@@ -1288,7 +1320,8 @@ pub fn observe(toks: &[&str], scratch: &Path) -> String {
             if let Err(m) = guarded(|| render_ufo(&spec, v, dl, &mut s, &src)) {
                 return format!("render=panic:{}", hexs(&m));
             }
-            let r = observe_tree(&src, if v == 3 { Some(&spec) } else { None }, scratch);
+            let target = if field(toks, "t").is_empty() { "absent" } else { field(toks, "t") };
+            let r = observe_tree_with(&src, if v == 3 { Some(&spec) } else { None }, scratch, target, field(toks, "e"));
             rm_rf(&src);
             r
         }
@@ -1296,7 +1329,8 @@ pub fn observe(toks: &[&str], scratch: &Path) -> String {
             let rel = String::from_utf8(unhex(field(toks, "p"))).unwrap();
             let src = scratch.join("c04-in.ufo");
             copy_tree(&testdata_root().join(&rel), &src);
-            let r = observe_tree(&src, None, scratch);
+            let target = if field(toks, "t").is_empty() { "absent" } else { field(toks, "t") };
+            let r = observe_tree_with(&src, None, scratch, target, "");
             rm_rf(&src);
             r
         }
@@ -1355,6 +1389,59 @@ pub fn observe(toks: &[&str], scratch: &Path) -> String {
     }
 }
 
+/// one generated tree case; `v3_edit_only`: a format-3 tree that is loaded, edited through the API, saved and loaded
+/// (the C01 generator runs these too: a font "built through the public API" may start from a load)
+pub fn emit_tree_case(rng: &mut Rng, i: usize, v3_edit_only: bool, out: &mut dyn Write, scratch: &Path) {
+        let mut spec = gen_spec(rng, if i % 40 == 7 { 8 } else { i % 40 }); // no tiny numbers here (C01 owns that finding)
+        let v = if v3_edit_only { 3 } else { *rng.pick(&[3u8, 3, 3, 3, 2, 1]) };
+        if v < 3 {
+            // what a format 1/2 tree can hold
+            spec.layers.truncate(1);
+            spec.layers[0].name = "public.default".into();
+            spec.layers[0].color = None;
+            spec.layers[0].lib = Dictionary::new();
+            spec.guides = None;
+            spec.data.clear();
+            spec.images.clear();
+            spec.minor = 0;
+            spec.nums.retain(|(k, _)| !k.contains('.'));
+            if let Some(u) = spec.upm {
+                if f64::from_bits(u) == 0.0 && f64::from_bits(u).is_sign_negative() {
+                    spec.upm = None;
+                }
+            }
+        }
+        let dl = rng.below(4);
+        // one case in four: load, insert glyphs through the API (names that are the stems of foreign file names,
+        // pool names, clashing names), save, load
+        let edit = v3_edit_only || i % 4 == 3;
+        let mut toks = vec![
+            if edit { "edit".to_string() } else { "ufo".to_string() },
+            format!("v={}", v),
+            format!("s={}", rng.next() % 1_000_000),
+            format!("dl={}", dl),
+        ];
+        toks.push(format!("t={}", rng.pick(&["absent", "empty", "ufo", "ufo", "ufojunk", "partial", "junk"])));
+        if edit {
+            let mut ops = Vec::new();
+            for _ in 0..1 + rng.below(4) {
+                let name = match rng.below(4) {
+                    0 => format!("g{}_", rng.below(4)),
+                    1 => rng.pick(&["a", "B", "space", "con", "a_", "A_B.alt", "zeta", "\u{c4}*"]).to_string(),
+                    2 => {
+                        let grp = *rng.pick(&CLASHES);
+                        rng.pick(grp).to_string()
+                    }
+                    _ => xname(rng, &["a", "A", "B", ".notdef", "\u{e9}"]),
+                };
+                ops.push(format!("{}.{}.{}", rng.below(3), hexs(&name), 1 + rng.next() % 1_000_000));
+            }
+            toks.push(format!("e={}", ops.join(",")));
+        }
+        toks.extend(font_tokens(&spec));
+        emit(out, scratch, &toks);
+}
+
 fn emit(out: &mut dyn Write, scratch: &Path, toks: &[String]) {
     let refs: Vec<&str> = toks.iter().map(|x| x.as_str()).collect();
     let obs = observe(&refs, scratch);
@@ -1379,6 +1466,10 @@ pub fn gen(tier: &str, seed: u64, out: &mut dyn Write) {
     }
     for u in &ufos {
         emit(out, &scratch, &["testdata".to_string(), format!("p={}", hexs(u))]);
+        // the same, saved over a directory that already holds a bigger norad-written UFO / the remains of one
+        for t in ["ufo", "partial", "ufojunk"] {
+            emit(out, &scratch, &["testdata".to_string(), format!("p={}", hexs(u)), format!("t={}", t)]);
+        }
     }
     for g in &glifs {
         emit(out, &scratch, &["glifdata".to_string(), format!("p={}", hexs(g))]);
@@ -1398,29 +1489,7 @@ pub fn gen(tier: &str, seed: u64, out: &mut dyn Write) {
     // generated trees
     let n = if tier == "thorough" { 12_000 } else { 500 };
     for i in 0..n {
-        let mut spec = gen_spec(&mut rng, if i % 40 == 7 { 8 } else { i % 40 }); // no tiny numbers here (C01 owns that finding)
-        let v = *rng.pick(&[3u8, 3, 3, 3, 2, 1]);
-        if v < 3 {
-            // what a format 1/2 tree can hold
-            spec.layers.truncate(1);
-            spec.layers[0].name = "public.default".into();
-            spec.layers[0].color = None;
-            spec.layers[0].lib = Dictionary::new();
-            spec.guides = None;
-            spec.data.clear();
-            spec.images.clear();
-            spec.minor = 0;
-            spec.nums.retain(|(k, _)| !k.contains('.'));
-            if let Some(u) = spec.upm {
-                if f64::from_bits(u) == 0.0 && f64::from_bits(u).is_sign_negative() {
-                    spec.upm = None;
-                }
-            }
-        }
-        let dl = rng.below(4);
-        let mut toks = vec!["ufo".to_string(), format!("v={}", v), format!("s={}", rng.next() % 1_000_000), format!("dl={}", dl)];
-        toks.extend(font_tokens(&spec));
-        emit(out, &scratch, &toks);
+        emit_tree_case(&mut rng, i, false, out, &scratch);
     }
     // generated glif documents
     let m = if tier == "thorough" { 60_000 } else { 4_000 };
